@@ -1,5 +1,7 @@
 import FitModel.Crc
 import Driver.Util
+-- @family crc Drv.hCrc
+-- @family crcx Drv.hCrcX
 namespace Drv
 open Fit.Crc
 
@@ -43,5 +45,8 @@ def execCrcX (spec : Bool) (args : List String) : String :=
         return "digest=" ++ hexN 16 d.toNat
     | none => "bad-op"
   | _ => "bad-op"
+
+def hCrc : Handler := modelSpec execCrc
+def hCrcX : Handler := modelSpec execCrcX
 
 end Drv
